@@ -605,12 +605,19 @@ def _hist_term(case):
     return clist(_op_term(op) for op in case["ops"])
 
 
-def serialise(obs):
-    out = [len(obs["per_op"])]
-    for o in obs["per_op"]:
-        out += _ser_obs(o)
+HMOD = (1 << 61) - 1
+
+
+def digest(seq):
+    h = 7
+    for x in seq:
+        h = (h * 1000003 + x + 1) % HMOD
+    return h
+
+
+def final_ser(obs):
     c = obs["closed"]
-    out += _ser_list(c["flat"]) + _ser_pairs(c["links"]) + _ser_grps(c["fpg"])
+    out = _ser_list(c["flat"]) + _ser_pairs(c["links"]) + _ser_grps(c["fpg"])
     out += _ser_mem(obs["reopened"])
     out += _ser_pairs([(k, ok) for k, ok, _ in obs["copies"]])
     return out
@@ -619,10 +626,11 @@ def serialise(obs):
 def case_term(case, obs):
     if "per_op" not in obs or "reopened" not in obs:
         return "false"
-    ser = serialise(obs)
-    if any(not 0 <= x < 4000 for x in ser):
+    fin = final_ser(obs)
+    if any(not 0 <= x < 4000 for x in fin):
         return "false"
-    return "agree cur %s [%s]" % (_hist_term(case), ";".join(str(x) for x in ser))
+    return "agree cur %s [%s] [%s]" % (
+        _hist_term(case), ";".join("%d%%N" % digest(_ser_obs(o)) for o in obs["per_op"]), ";".join(str(x) for x in fin))
 
 
 def model_term(case):
